@@ -613,18 +613,23 @@ std::string Circuit::report() const {
 
 namespace {
 /**
- * @brief Mark a circuit as in use for the duration of a placement call; the
- * mark is removed when the call ends, whether it returns or throws
+ * @brief Mark a circuit as in use for the duration of a placement call; when
+ * the call ends, whether it returns or throws, the mark is put back to what it
+ * was before: a placement call made from a callback of another one does not
+ * release the circuit while the outer call is still running
  */
 class InUseGuard {
  public:
-  explicit InUseGuard(bool &flag) : flag_(flag) { flag_ = true; }
-  ~InUseGuard() { flag_ = false; }
+  explicit InUseGuard(bool &flag) : flag_(flag), previous_(flag) {
+    flag_ = true;
+  }
+  ~InUseGuard() { flag_ = previous_; }
   InUseGuard(const InUseGuard &) = delete;
   InUseGuard &operator=(const InUseGuard &) = delete;
 
  private:
   bool &flag_;
+  const bool previous_;
 };
 }  // namespace
 
